@@ -40,6 +40,12 @@ def c12Line (cmd : String) (ts : List String) : String :=
       let f ← (if f == "-" then some none else f.toNat?.map some)
       let (o, r) := ctor n f
       some s!"open={o} raised={b01 r}").getD "bad-op"
+  | "fdctortol", [n, f] =>
+    (do
+      let n ← n.toNat?
+      let f ← f.toNat?
+      let (o, r) := ctorTol n f
+      some s!"open={o} raised={b01 r}").getD "bad-op"
   | _, _ => "bad-op"
 
 end WD.Driver
